@@ -28,6 +28,9 @@ use crate::{
     Bencher,
 };
 
+/// Names the otherwise unnameable builder state of `Bencher`.
+pub use crate::benchmark::BencherConfig as BencherCfg;
+
 // ---------------------------------------------------------------------------
 // Thread pool
 // ---------------------------------------------------------------------------
